@@ -16,6 +16,7 @@ import (
 	"sort"
 	"strings"
 	"sync"
+	"time"
 )
 
 type Mutant struct {
@@ -256,7 +257,32 @@ func contains(ss []string, s string) bool {
 	return false
 }
 
+// pruneBuildCache removes what the Go build cache gained since `since`: every scratch copy of /repo lives at a path of its
+// own, so each one adds a few MB of export data for the package under analysis that can never be used again (one thorough
+// run: ~1.3 GB). Deleting cache entries is always safe; entries another process wrote meanwhile are simply rebuilt.
+func pruneBuildCache(since time.Time) {
+	out, err := exec.Command("go", "env", "GOCACHE").Output()
+	dir := strings.TrimSpace(string(out))
+	if err != nil || dir == "" || dir == "off" {
+		return
+	}
+	filepath.Walk(dir, func(p string, info os.FileInfo, err error) error {
+		if err != nil || info.IsDir() {
+			return nil
+		}
+		if len(filepath.Base(p)) < 20 { // README, trim.txt, testexpire.txt …
+			return nil
+		}
+		if info.ModTime().After(since) {
+			os.Remove(p)
+		}
+		return nil
+	})
+}
+
 func runMutants(ms []Mutant, repo, verif string, propsFor func(Mutant) []string, par int) []mutResult {
+	start := time.Now()
+	defer pruneBuildCache(start)
 	out := make([]mutResult, len(ms))
 	var wg sync.WaitGroup
 	sem := make(chan struct{}, par)
